@@ -18,7 +18,7 @@ use ckb_types::{
     prelude::*,
     utilities::compact_to_target,
 };
-use ckb_verification::{EpochError, HeaderError, HeaderErrorKind, HeaderVerifier};
+use ckb_verification::{BlockError, BlockErrorKind, EpochError, HeaderError, HeaderErrorKind, HeaderVerifier};
 use ckb_verification_traits::Verifier;
 use std::panic::{AssertUnwindSafe, catch_unwind};
 
@@ -73,7 +73,11 @@ fn op_hv(out: &mut Out, consensus: &Consensus, compact: u32, nonce: u128, known:
         Err(_) => "fail",
         Ok(Ok(())) => "ok",
         Ok(Err(e)) => match e.downcast_ref::<HeaderError>() {
-            None => "other",
+            // UnknownParentError is converted through BlockError (BlockErrorKind::UnknownParent)
+            None => match e.downcast_ref::<BlockError>() {
+                Some(be) if be.kind() == BlockErrorKind::UnknownParent => "unknown-parent",
+                _ => "other",
+            },
             Some(he) => match he.kind() {
                 HeaderErrorKind::Pow => "invalid-nonce",
                 HeaderErrorKind::InvalidParent => "unknown-parent",
